@@ -27,6 +27,7 @@ type msScen struct {
 	Warm   int        `json:"warm"`   // video frames (or audio writes) fed sequentially before the threads start
 	Writes int        `json:"writes"` // frames fed by the writer thread
 	Close  bool       `json:"close"`  // writer calls Close at the end
+	LongSeg int       `json:"long_seg,omitempty"` // 1: the writer skips key frames so that its second segment is three times as long
 	Params int        `json:"params"` // frame index (relative to the writer's first) that switches the parameter set; 0 none
 	Reqs   [][]string `json:"reqs"`   // per requester thread, request symbols
 	Bound  int        `json:"bound"`
@@ -39,8 +40,8 @@ func (s msScen) name() string {
 	for _, r := range s.Reqs {
 		rs = append(rs, strings.Join(r, ">"))
 	}
-	return fmt.Sprintf("%s {%s} warm=%d writes=%d close=%v params=%d reqs=[%s] bound=%d shard=%d/%d",
-		s.Prop, s.Cfg, s.Warm, s.Writes, s.Close, s.Params, strings.Join(rs, " | "), s.Bound, s.Shard, s.Shards)
+	return fmt.Sprintf("%s {%s} warm=%d writes=%d close=%v params=%d long=%d reqs=[%s] bound=%d shard=%d/%d",
+		s.Prop, s.Cfg, s.Warm, s.Writes, s.Close, s.Params, s.LongSeg, strings.Join(rs, " | "), s.Bound, s.Shard, s.Shards)
 }
 
 // frame feeder: video frame i at i*frameMS, random access every gop frames (one SegmentMinDuration); audio access
@@ -54,6 +55,10 @@ type msFeeder struct {
 	next    int   // next video frame index
 	audioN  []int // per audio track: next access unit index
 	seq     int
+	jumpMS    int64 // the next key frame is delayed by this much (one long segment)
+	offMS     int64
+	skipArmed bool
+	skipRA  int // number of upcoming key frames to write as ordinary frames (makes a long segment)
 }
 
 func newFeeder(mi *muxInst) *msFeeder {
@@ -75,7 +80,12 @@ func newFeeder(mi *muxInst) *msFeeder {
 func (f *msFeeder) feed(switchParams bool) error {
 	i := f.next
 	f.next++
-	tms := int64(i) * f.frameMS // time of this frame in ms
+	if f.jumpMS != 0 && f.vtrack >= 0 && i%f.gop == 0 && i > 0 {
+		// the key frame arrives late: the segment it closes is that much longer
+		f.offMS += f.jumpMS
+		f.jumpMS = 0
+	}
+	tms := int64(i)*f.frameMS + f.offMS // time of this frame in ms
 	for ti, t := range f.mi.cfg.Tracks {
 		if t.video() {
 			continue
@@ -103,9 +113,14 @@ func (f *msFeeder) feed(switchParams bool) error {
 	}
 	if f.vtrack >= 0 {
 		f.seq++
-		u := wunit{Track: f.vtrack, DTS: int64(i) * f.frameMS * 90, RA: i%f.gop == 0, Seq: f.seq}
+		u := wunit{Track: f.vtrack, DTS: tms * 90, RA: i%f.gop == 0, Seq: f.seq}
+		if u.RA && f.skipRA > 0 && f.skipArmed {
+			f.skipRA--
+			u.RA = false
+		}
 		if u.RA {
 			u.Params = 1
+			f.skipArmed = true
 		}
 		if switchParams {
 			u.RA, u.Params = true, 2
@@ -303,6 +318,9 @@ func msSetup(sc msScen, scratch string) func(s *vsched.Sched) any {
 			}
 		}
 		st.snap()
+		if sc.LongSeg != 0 {
+			st.feeder.jumpMS = 2 * int64(sc.Cfg.SegMinMS)
+		}
 		vsched.GoNamed("writer", func() {
 			for i := 0; i < sc.Writes; i++ {
 				if err := st.feeder.feed(sc.Params != 0 && i == sc.Params-1); err != nil {
